@@ -889,6 +889,19 @@ impl<'a> Message<'a> {
                 actual: data.len(),
             });
         }
+        if mlength + MessageHeader::LENGTH < data.len() {
+            // the bytes after the advertised size are not part of this message (and are covered
+            // by neither MESSAGE-INTEGRITY nor FINGERPRINT)
+            warn!(
+                "malformed advertised size {:?} is smaller than data size {:?}",
+                mlength + 20,
+                data.len()
+            );
+            return Err(StunParseError::TooLarge {
+                expected: mlength + MessageHeader::LENGTH,
+                actual: data.len(),
+            });
+        }
 
         let mut data_offset = MessageHeader::LENGTH;
         let mut data = &data[MessageHeader::LENGTH..];
